@@ -240,6 +240,10 @@ class IncrementalOptimizer(OptBase):
         for obj in objs:
             for mi in ("none", "int"):
                 out.append(dict(obj=obj, max_iter=mi))
+        # any verbosity (what the optimiser prints on the way must not change what it optimises), with an indicator that
+        # is only reported declared after the objective
+        for obj in ("makespan", "indicator_max", "two_weighted_min"):
+            out.append(dict(obj=obj, max_iter="none", verbose=True))
         return out
 
     def build(self, ps, P, case):
@@ -279,12 +283,17 @@ class IncrementalOptimizer(OptBase):
         else:
             ind = ps.IndicatorFromMathExpression(name="ind", expression=t1._start - t2._end)
             obj = ps.ObjectiveMaximizeIndicator(target=ind, weight=1)
+        if case.get("verbose"):
+            ps.IndicatorFromMathExpression(name="reported", expression=t2._start - t1._end)
         return pb, obj, (t1, t2, w)
 
     def scenario(self, ps, P, case):
         pb, obj, _ = self.build(ps, P, case)
         P.apply_pins(ps)
         kw = {}
+        if case.get("verbose"):
+            P.assume(P.int("verbosity") >= 0)
+            kw["verbosity"] = P.int("verbosity")
         if case["max_iter"] == "int":
             P.assume(P.int("max_iter") >= 1)
             kw["max_iter"] = P.int("max_iter")
@@ -332,7 +341,7 @@ class IncrementalOptimizer(OptBase):
                 s = z3.Solver()
                 s.add(*base)
                 s.add(better(kind, variable, val))
-                out.append(Clause("post[optimal when the loop ends on unsat]", z3.BoolVal(s.check() == z3.unsat), props=("C07",), kind="sound"))
+                out.append(Clause("post[optimal when the loop ends on unsat]", z3.BoolVal(s.check() == z3.unsat), props=("C07", "C15"), kind="sound"))
             s2 = z3.Solver()
             s2.add(*solver._solver.assertions())
             s2.add(*base)
@@ -389,10 +398,14 @@ def _incremental_native_search(case, params, ob):
     ps = runner.native_ps()
     con = IncrementalOptimizer()
     tried = 0
-    for H in (3, 4, 6):
-        for d1 in (1, 2):
-            for lb, ub in ((0, 0), (0, 3), (0, 5), (0, 8), (1, 9), (0, 12)):
-                vals = dict(H=H, d1=d1, lb=lb, ub=ub, max_iter=1000)
+    weights = sorted({(max(1, int(params.get("w1") or 1)), max(1, int(params.get("w2") or 1))), (1, 1), (3, 2)}) if case["obj"].startswith("two_weighted") else [(1, 1)]
+    verbosities = sorted({int(params.get("verbosity") or 0), 1, 2}) if case.get("verbose") else [0]
+    bounds_grid = ((0, 0), (0, 3), (0, 5), (0, 8), (1, 9), (0, 12)) if "bounded" in case["obj"] else ((0, 0),)
+    grid = [(H, d1, lb, ub, w1, w2, vb) for H in (3, 4, 6) for d1 in (1, 2) for lb, ub in bounds_grid for w1, w2 in weights for vb in verbosities]
+    for H, d1, lb, ub, w1, w2, vb in grid:
+        if True:
+            if True:
+                vals = dict(H=H, d1=d1, lb=lb, ub=ub, max_iter=1000, w1=w1, w2=w2, verbosity=vb)
                 import processscheduler.base as base
 
                 base.active_problem = None
@@ -401,7 +414,7 @@ def _incremental_native_search(case, params, ob):
                     warnings.simplefilter("ignore")
                     try:
                         pb, obj, _ = con.build(ps, P, case)
-                        solver = ps.SchedulingSolver(problem=pb)
+                        solver = ps.SchedulingSolver(problem=pb, **({"verbosity": vb} if case.get("verbose") else {}))
                         solver.initialize()
                         B = list(solver._solver.assertions())
                         variable = solver._objective._target
@@ -431,8 +444,6 @@ def _incremental_native_search(case, params, ob):
                 got = res[variable].as_long()
                 if got != best:
                     return {"confirmed": True, "observation": {"params": vals, "incremental_result": got, "true_optimum": best, "declared_bounds": list(bounds) if bounds else None}}
-                if case["obj"] != "indicator_min_bounded":
-                    break
     return {"confirmed": False, "observation": {"instances_tried": tried}}
 
 
